@@ -39,6 +39,7 @@ struct fiber {
 	void *tls_waiter, *last_waiter;
 	void (*tls_dest) (void *);
 	void *fstack[FSTACK];
+	void *fiber_word;
 	int fdepth;
 	/* futex blocking */
 	void *blk_addr;
@@ -472,9 +473,12 @@ static void trampoline (int idx) {
 	to_main (f);
 	abort ();
 }
+void **rt_fiber_word;       /* a word of the code under test that is per-thread there (a thread-local variable): saved and restored on every switch */
 static void run_fiber (struct fiber *f) {
 	G->cur = f;
+	if (rt_fiber_word) *rt_fiber_word = f->fiber_word;
 	swapcontext (&G->mainctx, &f->ctx);
+	if (rt_fiber_word) { f->fiber_word = *rt_fiber_word; *rt_fiber_word = NULL; }
 	G->cur = NULL;
 }
 int rt_spawn (void (*fn) (void *), void *arg) {
